@@ -6,6 +6,7 @@ import (
 	"math"
 	"sort"
 	"strconv"
+	"strings"
 	"sync"
 	"testing"
 	"time"
@@ -29,6 +30,10 @@ type POp struct {
 	NB   int    `json:"nb,omitempty"` // histogram: number of bounds
 	B    int    `json:"b,omitempty"`  // histogram: bucket index
 	Rep  int    `json:"rep,omitempty"`
+	// Pad > 0: the name is padded to this many bytes, more than MaxPacketSizeBytes: the metric
+	// cannot share a packet with anything and does not even fit one - it must still be delivered,
+	// exactly once (the size bound of C12 is conditional on every metric fitting; delivery is not)
+	Pad int `json:"pad,omitempty"`
 }
 
 type Case struct {
@@ -86,6 +91,10 @@ func gen(t *rapid.T) Case {
 				op.NB = rapid.IntRange(0, 6).Draw(t, "nb")
 				op.B = rapid.IntRange(0, 6).Draw(t, "b")
 				op.Rep = rapid.SampledFrom([]int{0, 0, 1, 3, 20}).Draw(t, "rep")
+				if c.MaxPacket <= 4000 && rapid.IntRange(0, 15).Draw(t, "pad?") == 0 {
+					op.Pad = int(c.MaxPacket) + rapid.IntRange(0, 600).Draw(t, "pad")
+					op.Rep = rapid.IntRange(0, 2).Draw(t, "padrep")
+				}
 			}
 			ops = append(ops, op)
 		}
@@ -198,6 +207,9 @@ func run(c Case) (pbt.Outcome, error) {
 					continue
 				}
 				name := string(op.Name)
+				if op.Pad > len(name) {
+					name += strings.Repeat("x", op.Pad-len(name))
+				}
 				tags := op.Tags.Std()
 				for _, reserved := range []string{idName, bucketName} {
 					// a user tag with the name of a bucket tag would make the harness take the
@@ -385,7 +397,7 @@ func run(c Case) (pbt.Outcome, error) {
 func TestC13(t *testing.T) {
 	pbt.Main(t, pbt.Prop[Case]{
 		ID: "C13", Name: "delivery",
-		Rule: "rapid-generated M3 reporter configurations (Compact/Binary, 1..3 real loopback destinations - in a quarter of the cases with an additional unreachable destination somewhere in the host list (sends to it fail), which must not disturb the live ones -, queue size 1..4096, common tags, packet size, default or custom bucket tag names) and 1..4 producer goroutines (real threads) started right after NewReporter, each a history of 1..12 Allocate*+Report*/Flush ops (and, in a sixth of the cases, bursts of 50..3000 distinct values per producer through ONE counter, gauge and timer handle shared by all producers) with arbitrary byte-string names, tag keys/values drawn from an alphabet rich in '=' (so that different tag maps have equal 'k=v' strings), full-range int64/float64 values, histogram buckets of strictly increasing specs, repeats; then Close. Oracle per destination: every datagram decodes as exactly one well-formed one-way message with the configured common tags (service and env included); the multiset of decoded non-internal metrics (name, kind, value bits, tag set, bucket tags present) equals the multiset reported; timestamps within [construction, return of the report call] (+1ms); Close returned only after every emitted batch had been sent (all datagrams present). Non-trivial: >=2 distinct tag sets and >=2 datagrams. Distinct: FNV-64 of the case JSON.",
+		Rule: "rapid-generated M3 reporter configurations (Compact/Binary, 1..3 real loopback destinations - in a quarter of the cases with an additional unreachable destination somewhere in the host list (sends to it fail), which must not disturb the live ones -, queue size 1..4096, common tags, packet size, default or custom bucket tag names) and 1..4 producer goroutines (real threads) started right after NewReporter, each a history of 1..12 Allocate*+Report*/Flush ops (and, in a sixth of the cases, bursts of 50..3000 distinct values per producer through ONE counter, gauge and timer handle shared by all producers) with arbitrary byte-string names, tag keys/values drawn from an alphabet rich in '=' (so that different tag maps have equal 'k=v' strings), full-range int64/float64 values, occasionally a name longer than MaxPacketSizeBytes (such a metric must still be delivered exactly once), histogram buckets of strictly increasing specs, repeats; then Close. Oracle per destination: every datagram decodes as exactly one well-formed one-way message with the configured common tags (service and env included); the multiset of decoded non-internal metrics (name, kind, value bits, tag set, bucket tags present) equals the multiset reported; timestamps within [construction, return of the report call] (+1ms); Close returned only after every emitted batch had been sent (all datagrams present). Non-trivial: >=2 distinct tag sets and >=2 datagrams. Distinct: FNV-64 of the case JSON.",
 		Gen:  gen, Run: run,
 	})
 }
